@@ -49,6 +49,8 @@ pub struct HistProp {
     pub mk: fn(&Cfg, &World, &Obs) -> Box<dyn Checker>,
     /// structured scenario generator mixed into the general one (weight out of 10)
     pub extra: Option<(u32, fn(Tier) -> BoxedStrategy<History>)>,
+    /// weight (out of 10) of the many-batches scenario generator
+    pub many_batches: u32,
 }
 
 pub const ENVELOPE: &str = "operating envelope of DESIGN.md section 4 (E1 magnitudes <= 1e18, E2 simulator abstraction of bank/staking/distribution, E3 trusted owner configuration, E4 slashing never leaves the hub without stake, E5 swap/oracle stubs, E6 principals)";
@@ -70,12 +72,23 @@ impl Prop for HistProp {
     }
     fn strategy(&self, tier: Tier) -> BoxedStrategy<History> {
         let general = history_strategy(&(self.profile)(tier), (self.cfgs)());
-        match self.extra {
-            Some((w, f)) if w > 0 => {
-                proptest::strategy::Union::new_weighted(vec![(10 - w.min(9), general), (w.min(9), f(tier))]).boxed()
+        let mut parts: Vec<(u32, BoxedStrategy<History>)> = vec![];
+        let mut used = 0;
+        if let Some((w, f)) = self.extra {
+            if w > 0 {
+                parts.push((w, f(tier)));
+                used += w;
             }
-            _ => general,
         }
+        if self.many_batches > 0 {
+            parts.push((self.many_batches, many_batches_scenario_strategy((self.cfgs)())));
+            used += self.many_batches;
+        }
+        if parts.is_empty() {
+            return general;
+        }
+        parts.push((10u32.saturating_sub(used).max(1), general));
+        proptest::strategy::Union::new_weighted(parts).boxed()
     }
     fn cases(&self, tier: Tier) -> u32 {
         match tier {
@@ -97,3 +110,33 @@ pub fn long(p: Profile, tier: Tier) -> Profile {
     }
     p
 }
+
+/// Run one history through the check of a history-family property (used by the libFuzzer `hist` target).
+pub fn fuzz_history(id: &str, h: &History) -> Option<(Violation, std::path::PathBuf)> {
+    macro_rules! go {
+        ($p:expr) => {{
+            let p = $p;
+            fuzz_one(&p, h).map(|v| {
+                let path = save_fuzz_replay(&p, h, &v);
+                (v, path)
+            })
+        }};
+    }
+    match id {
+        "C01" => go!(c01::prop()),
+        "C02" => go!(c02::prop()),
+        "C03" => go!(c03::prop()),
+        "C04" => go!(c04::prop()),
+        "C05" => go!(c05::prop()),
+        "C06" => go!(c06::prop()),
+        "C07" => go!(c07::prop()),
+        "C08" => go!(c08::prop()),
+        "C09" => go!(c09::prop()),
+        "C13" => go!(c13::prop()),
+        "C14" => go!(c14::prop()),
+        "C16" => go!(c16::prop()),
+        "C19" => go!(c19::C19Prop),
+        _ => None,
+    }
+}
+pub const HIST_FAMILY: [&str; 13] = ["C01", "C02", "C03", "C04", "C05", "C06", "C07", "C08", "C09", "C13", "C14", "C16", "C19"];
